@@ -5,6 +5,7 @@
 package simexec
 
 import (
+	"path/filepath"
 	"context"
 	"errors"
 	"os"
@@ -48,6 +49,8 @@ type World struct {
 	Behave  func(path string) Behaviour
 	Failed  []string // starts that failed: path + error
 	OnStart func(p *Proc) // called (with the world locked) for every start attempt, successful or not
+	Cwd     func() string          // working directory of the simulated process (relative program paths)
+	Exists  func(abs string) bool  // does the program file exist (nil: every path does)
 }
 
 var Cur *World
@@ -173,13 +176,32 @@ func (c *Cmd) Start() error {
 	}
 	simrt.Yield("exec:" + c.Path) // every process start is a scheduling point for scheduler-owned goroutines
 	w := Cur
+	// the path the kernel would execute: a relative program path is resolved in the child's
+	// working directory, which is cmd.Dir when that is set
+	eff := c.Path
+	if !filepath.IsAbs(eff) {
+		base := c.Dir
+		if base == "" && w.Cwd != nil {
+			base = w.Cwd()
+		} else if base != "" && !filepath.IsAbs(base) && w.Cwd != nil {
+			base = filepath.Join(w.Cwd(), base)
+		}
+		if base != "" {
+			eff = filepath.Join(base, eff)
+		}
+	}
+	eff = filepath.Clean(eff)
+	missing := w.Exists != nil && !w.Exists(eff) // looks at the simulated disk: before this world's lock is taken
 	w.mu.Lock()
 	defer w.mu.Unlock()
 	var b Behaviour
 	if w.Behave != nil {
-		b = w.Behave(c.Path)
+		b = w.Behave(eff)
 	}
-	p := &Proc{ID: len(w.Procs), Path: c.Path, Args: append([]string(nil), c.Args...), Env: append([]string(nil), c.Env...), StartAt: time.Now(), kill: make(chan struct{}), b: b}
+	if b.StartErr == nil && missing {
+		b.StartErr = syscall.ENOENT
+	}
+	p := &Proc{ID: len(w.Procs), Path: eff, Args: append([]string(nil), c.Args...), Env: append([]string(nil), c.Env...), StartAt: time.Now(), kill: make(chan struct{}), b: b}
 	if w.OnStart != nil {
 		w.OnStart(p)
 	}
